@@ -439,8 +439,6 @@ P_Transitions(h, e, o) ==
   /\ \A i \in 1..(Len(ch) - 1) : <<ch[i], ch[i + 1]>> \in Edges \/ (e.ev = "Delete" /\ ch[i + 1] = "Idle")
   /\ \A i \in 1..(Len(ch) - 1) :
        (ch[i] = "Active" /\ ch[i + 1] = "OpenConfirm") => (h[CO].live /\ h[CO].cs \in {"OpenSent", "OpenConfirm"})
-  \* every state change needs a cause: no change in a step that delivers nothing to the session
-  /\ (e.ev \in {"Enable", "Shutdown", "ResetPeer"} /\ EstConns(h) = {}) => Len(o.wev) = 0
 
 (* -- C07_EstablishedOnlyAfterOpenKeepalive: Established is entered only by a KEEPALIVE received
       on a connection in OpenConfirm, i.e. after a valid OPEN (RFC 4271 8.2.2), and the session
